@@ -335,22 +335,34 @@ def _jackknife_orientation(prog, res, rj) -> None:
     defaults.update({q.arg: d for q, d in zip(a_.kwonlyargs, a_.kw_defaults) if d is not None})
     arr = rj.param_names()[0]
     n = 0
-    for fi in prog.funcs:
+    from ..inline import inlined as _inl5
+    from .common import expand_locals as _xl5
+
+    callers = [f0 for f0 in prog.funcs if f0.parent is None and any(rj in prog.resolve_call(f0, c).funcs() for c in calls_in(f0))]
+    for f0 in callers:
+        fi = _inl5(prog, f0, keep={rj.name}, desugar=True)  # a helper that allocates / fills the array is expanded in place
         for c in calls_in(fi):
             if rj not in prog.resolve_call(fi, c).funcs() or not c.args:
                 continue
             n += 1
-            res.touch(fi)
+            res.touch(f0)
             eff = kwarg(c, flag) or defaults.get(flag)
             if not (isinstance(eff, ast.Constant) and isinstance(eff.value, bool)):
                 raise AnalysisError(f"C03.R5: orientation flag of the resample_jackknife call in {fi.short} is not a constant")
             # orientation of the array handed over: first dimension of its allocation
             a0 = c.args[0]
+            for _ in range(4):  # counts = _h2_counts = np.empty(...)
+                vs0 = [v for v in all_def_values(fi.node, a0.id) if v is not None] if isinstance(a0, ast.Name) else []
+                if len(vs0) == 1 and isinstance(vs0[0], ast.Name):
+                    a0 = vs0[0]
+                else:
+                    break
             vals = [v for v in all_def_values(fi.node, a0.id) if v is not None] if isinstance(a0, ast.Name) else []
             rows_are_patches = None
             for v in vals:
-                if isinstance(v, ast.Call) and (dotted(v.func) or "").split(".")[-1] in ("empty", "zeros", "full") and v.args and isinstance(v.args[0], ast.Tuple) and v.args[0].elts:
-                    first = unparse(v.args[0].elts[0])
+                shp = _xl5(fi.node, v.args[0], set(fi.param_names()), depth=4) if isinstance(v, ast.Call) and v.args else None
+                if isinstance(v, ast.Call) and (dotted(v.func) or "").split(".")[-1] in ("empty", "zeros", "full") and isinstance(shp, ast.Tuple) and shp.elts:
+                    first = unparse(_xl5(fi.node, shp.elts[0], set(fi.param_names()), depth=4)) + " " + unparse(v.args[0].elts[0] if isinstance(v.args[0], ast.Tuple) else v.args[0])
                     rows_are_patches = ("catalog" in first or "patch" in first) and "bin" not in first
             if rows_are_patches is None:
                 raise AnalysisError(f"C03.R5: orientation of the array handed to resample_jackknife in {fi.short} not recognised")
